@@ -50,10 +50,16 @@ def observe(tasks, args, arr):
             if len(x) == 0:
                 obs.append((False, -1, -1, int(ident)))
             else:
-                # arr holds its own indices, so a slice reveals its bounds; contiguity checked too
-                if not np.array_equal(x, np.arange(x[0], x[0] + len(x))):
-                    problems.append(f"slice not contiguous: {x!r}")
-                obs.append((False, int(x[0]), int(x[-1]) + 1, int(ident)))
+                # arr holds distinct values, so a slice reveals its bounds through the positions of its elements in arr;
+                # the elements must be arr[lo:hi] exactly (supplied elements, supplied order, contiguous)
+                where = {int(v): i for i, v in enumerate(np.asarray(arr).tolist())}
+                posn = [where.get(int(v), -1) for v in x.tolist()]
+                if -1 in posn:
+                    problems.append(f"batch holds elements that are not in the supplied array: {x!r}")
+                    posn = [p for p in posn if p >= 0] or [0]
+                if posn != list(range(posn[0], posn[0] + len(posn))):
+                    problems.append(f"batch is not a contiguous run of the supplied array in the supplied order: positions {posn[:8]}..")
+                obs.append((False, int(posn[0]), int(posn[-1]) + 1, int(ident)))
     return obs, problems
 
 
@@ -166,7 +172,8 @@ def run_worker_cases(ctx):
             kw["n_prior_samples"] = n_prior
         elif mode == "idx":
             idx_len = int(rng.integers(1, rows + 1))
-            arr = np.arange(idx_len)  # identity index array: slices reveal their bounds
+            # a shuffled selection of distinct rows (what randomize_prior_order hands over); every third one the identity
+            arr = np.arange(idx_len) if len(out) % 3 == 0 else rng.permutation(rows)[:idx_len]
             kw["samples_idx"] = arr
         case = dict(family="rw", rows=rows, n_prior=n_prior, idx_len=idx_len, n_batches=nb, pool_size=psize)
         try:
